@@ -323,9 +323,26 @@ func (g *gen) discharge(base string, opt dischargeOpts) []result {
 			for _, d := range otherDecls {
 				sb.WriteString(d + "\n")
 			}
+			// symbols that only the (get-value ...) terms of the replay mention (entry state the sliced query does not
+			// constrain) must still be declared, or the solver rejects the whole get-value command
+			showSyms := map[string]bool{}
+			if !o.cover {
+				for _, st := range o.show {
+					for _, m := range symRe.FindAllString(st.term, -1) {
+						showSyms[m] = true
+					}
+				}
+				if g.replay != nil {
+					for _, t := range g.replay.queryTerms() {
+						for _, m := range symRe.FindAllString(t, -1) {
+							showSyms[m] = true
+						}
+					}
+				}
+			}
 			for _, d := range g.decls {
 				if strings.HasPrefix(d, "(declare-const ") {
-					if m := symRe.FindString(d); m != "" && declOf[m] == d && need[m] {
+					if m := symRe.FindString(d); m != "" && declOf[m] == d && (need[m] || showSyms[m]) {
 						sb.WriteString(d + "\n")
 					}
 				}
